@@ -476,6 +476,9 @@ def e2e_worker(inp, outp):
             if cur["i"] >= 0 and time.time() - cur["t"] > CASE_TIMEOUT:
                 os._exit(3)
 
+    # the imports happen before the clock of the first case starts
+    from nemoguardrails import LLMRails, RailsConfig  # noqa: F401
+
     threading.Thread(target=watchdog, daemon=True).start()
     for i, case in enumerate(cases):
         cur["i"], cur["t"] = i, time.time()
@@ -491,7 +494,7 @@ def e2e_worker(inp, outp):
 # ---------------------------------------------------------------------------------------
 # hostile corpus
 
-LONG = 60000
+LONG = 30000
 
 
 def hostile_corpus():
@@ -536,7 +539,7 @@ def hostile_corpus():
     add("control", "\x00", "a\x00b", "\x01\x02\x1b[31m", "a\rb", "\x0b\x0c", " ", " ", "﻿", "\x7f", "\x85", "bot\x00 x", "bot \x00", "\x1f",
         "héllo wörld", "日本語", "\U0001F600", "‮abc", "á", "bot 日本", "user \U0001F600", "\ud800")
     add("long", "a" * LONG, "bot " + "a" * LONG, "bot a\n" * 3000, '"' * 10000, "{{ " * 5000, "(" * 5000, "[" * 20000, " " * LONG, "\n" * LONG,
-        "bot a " * 10000, "a b " * 20000, "$a" * 10000, "user " * 10000, '"' + "a" * LONG, "x\n" * 20000, '  bot say "x"\n' * 2000, "-" * LONG)
+        "bot a " * 2000, "a b " * 10000, "$a" * 10000, "user " * 2000, '"' + "a" * LONG, "x\n" * 20000, '  bot say "x"\n' * 2000, "-" * LONG)
     add("value", "1e999999", "9" * 10000, "__import__('os').system('x')", "open('/etc/passwd').read()", "lambda: 1", "None", "True", "[1,2", "{'a': 1}",
         "{1,2}", "b'x'", "1;", ";", "'a' 'b'", "f'{secret}'", "'" * 3 + "multi\nline" + "'" * 3, "'unterminated", "secret", "$secret;", "1 +", "-", "- 1",
         "1 + 2j", "(1,)", "()", "Ellipsis", "'{$x}'", "'$secret'", '"{{ 7*191 }}"', "'Result {{ 7*191 }} and $secret and {$x}.'", "[$secret]",
@@ -599,7 +602,7 @@ def mutations(rng, n):
 # ---------------------------------------------------------------------------------------
 # end-to-end driver (parent side): batches in child processes under `timeout`
 
-CASE_TIMEOUT = 60
+CASE_TIMEOUT = 90
 
 
 def _run_batch(idx, cases):
